@@ -23,8 +23,9 @@ MUTATORS = {
 # attributes that are views into their owner
 VIEW_ATTRS = {"positions", "cell", "arrays", "numbers", "pbc", "T", "flat", "real", "imag", "array", "info", "base"}
 # callables returning (possibly) their first argument itself
+# (copy.copy is shallow: the copy of an ase.Atoms shares the position / cell arrays of the original, so in-place edits reach it)
 PASS_THROUGH_EXT = {"numpy.asarray", "numpy.asanyarray", "numpy.ascontiguousarray", "numpy.ravel", "numpy.reshape",
-                    "numpy.squeeze", "numpy.atleast_2d", "numpy.atleast_1d", "numpy.transpose"}
+                    "numpy.squeeze", "numpy.atleast_2d", "numpy.atleast_1d", "numpy.transpose", "copy.copy"}
 VIEW_METHODS = {"reshape", "ravel", "view", "squeeze", "transpose", "swapaxes", "flat"}
 NP_INPLACE_FIRST = {"numpy.fill_diagonal", "numpy.put", "numpy.place", "numpy.copyto", "numpy.random.shuffle",
                     "numpy.putmask"}
